@@ -14,7 +14,8 @@ PROPERTY = "C26"
 LEVEL = "exploration"
 RULE = ("the real Motor.program inside a real FastSyncGroup over a motor "
         "terminal (16-bit velocity output, 32-bit encoder, two switch bits, "
-        "enable bit), loaded into the kernel and executed with "
+        "enable bit; own declarations and the bundled EL7041 with the layout "
+        "its PDO assignment yields), loaded into the kernel and executed with "
         "BPF_PROG_TEST_RUN (reference machine on a sample); inputs: cross "
         "product of boundary classes per input (0, +-1, the limits, limits "
         "+-1, 16/32-bit extremes) x switch states x enable, seeded random "
@@ -35,7 +36,10 @@ MIN_EVALUATIONS = {"quick": 20000, "thorough": 1000000}
 
 def plan(tier, seed):
     n = 15000 if tier == "quick" else 200000
-    return [dict(seed=seed, shard=i, n=n, cross=(i < 4), part=i)
+    # shards 2, 3 and the upper half drive the bundled motor terminal
+    # (EL7041 with its own process-data declarations)
+    return [dict(seed=seed, shard=i, n=n, cross=(i < 4), part=i,
+                 bundled=(i in (2, 3) or i >= 10))
             for i in range(16)]
 
 
@@ -49,6 +53,39 @@ def devices_fn(ec):
     m.low_switch = v[SyncManager.IN, 0]
     m.high_switch = v[SyncManager.IN, 1]
     m.enable = v[SyncManager.OUT, 0]
+    return [m], [t]
+
+
+# layout: (low byte, low bit), (high byte, high bit), position offset,
+# (enable byte, enable bit), velocity offset; relative to the regions
+OWN_LAYOUT = ((0, 0), (0, 1), 1, (0, 0), 1)
+EL7041_LAYOUT = ((5, 4), (5, 3), 0, (0, 0), 2)
+
+
+def devices_bundled(ec):
+    """the bundled EL7041 with the process-data layout its PDO assignment
+    (0x1601, 0x1602 / 0x1A01, 0x1A03) yields when read from the terminal;
+    sizes read from the terminal are always unsigned"""
+    from ebpfcat.terminals import EL7041
+    t = EL7041(ec)
+    t.position = 3
+    t.name = "EL7041"
+    t.use_fmmu = False
+    t.pdos = {}
+    for bit in range(16):
+        t.pdos[0x7010, bit + 1] = (SyncManager.OUT, bit // 8, bit % 8)
+        t.pdos[0x6010, bit + 1] = (SyncManager.IN, 4 + bit // 8, bit % 8)
+    t.pdos[0x7010, 0x21] = (SyncManager.OUT, 2, "H")
+    t.pdos[0x6000, 0x11] = (SyncManager.IN, 0, "I")
+    t.pdo_out_sz, t.pdo_out_off = 4, 0x1000
+    t.pdo_in_sz, t.pdo_in_off = 6, 0x1100
+    t.fmmu_used = [None] * 4
+    m = D.Motor()
+    m.velocity = t.velocity
+    m.encoder = t.stepcounter
+    m.low_switch = t.low_switch
+    m.high_switch = t.high_switch
+    m.enable = t.enable
     return [m], [t]
 
 
@@ -120,7 +157,13 @@ def run_shard(params):
     res = Result()
     rng = random.Random(params["seed"] * 100363 + params["shard"])
     with kern.session() as sess:
-        rig = fastrig.FastRig(sess, devices_fn)
+        bundled = params.get("bundled")
+        rig = fastrig.FastRig(sess, devices_bundled if bundled
+                              else devices_fn)
+        (lB, lb), (hB, hb), poff, (eB, eb), voff = \
+            EL7041_LAYOUT if bundled else OWN_LAYOUT
+        res.count("bundled_terminal_shards" if bundled
+                  else "own_terminal_shards")
         try:
             m = rig.devs[0]
             t = rig.terms[0]
@@ -147,10 +190,15 @@ def run_shard(params):
                 m.max_velocity = vec["vmax"]
                 m.set_enable = vec["enable"]
                 f = bytearray(base)
-                f[ri] = (1 if vec["low"] else 0) | (2 if vec["high"] else 0)
-                struct.pack_into("<i", f, ri + 1, vec["pos"])
-                f[ro] = 0
-                struct.pack_into("<h", f, ro + 1, vec["prev"])
+                f[ri + lB] = 0
+                f[ri + hB] = 0
+                if vec["low"]:
+                    f[ri + lB] |= 1 << lb
+                if vec["high"]:
+                    f[ri + hB] |= 1 << hb
+                struct.pack_into("<i", f, ri + poff, vec["pos"])
+                f[ro + eB] = 0
+                struct.pack_into("<h", f, ro + voff, vec["prev"])
                 ret, out, _ = rig.run_k(bytes(f))
                 nv += 1
                 clamp = (mid != desired or v != mid)
@@ -161,8 +209,8 @@ def run_shard(params):
                     res.count("velocity_clamp_active")
                 if (vec["low"] and mid < 0) or (vec["high"] and mid > 0):
                     res.count("switch_blocks")
-                got, = struct.unpack_from("<h", out, ro + 1)
-                en = out[ro] & 1
+                got, = struct.unpack_from("<h", out, ro + voff)
+                en = (out[ro + eB] >> eb) & 1
                 if ret != 3 or len(out) != len(f):
                     res.violation("unexplained:action",
                                   f"returned {ret}, {len(out)} bytes",
@@ -202,7 +250,8 @@ def run_shard(params):
 def finalize(res, tier, seed):
     c = res.counters
     for k in ("acceleration_clamp_active", "velocity_clamp_active",
-              "switch_blocks"):
+              "switch_blocks", "bundled_terminal_shards",
+              "own_terminal_shards"):
         if not c.get(k):
             res.inconc(f"{k}: never exercised")
 
